@@ -120,7 +120,8 @@ struct udp_pipe {
 	nng_sockaddr   peer_addr;
 	uint16_t       peer;
 	uint16_t       proto;
-	uint64_t       id;
+	uint64_t       id;  // hash of peer_addr, 0 once removed from ep->pipes
+	uint64_t       key; // key in ep->pipes holding this pipe (probed from id)
 	uint32_t       self_id;
 	uint32_t       peer_id;
 	uint16_t       sndmax; // peer's max recv size
@@ -328,31 +329,58 @@ udp_find_pipe(udp_ep *ep, const nng_sockaddr *peer_addr)
 	}
 }
 
+// Pipes are found by probing from the hash of the peer address until an
+// empty key (udp_find_pipe).  Removing a key therefore must not leave a
+// hole in front of pipes stored behind it in the same run: move each pipe
+// of the rest of the run to the first free key of its own probe sequence.
+static void
+udp_close_gap(udp_ep *ep, uint64_t key)
+{
+	udp_pipe *q;
+
+	for (;;) {
+		uint64_t want;
+		key++;
+		if (key == 0) {
+			key = 1;
+		}
+		if ((q = nni_id_get(&ep->pipes, key)) == NULL) {
+			return;
+		}
+		want = q->id;
+		while ((want != key) &&
+		    (nni_id_get(&ep->pipes, want) != NULL)) {
+			want++;
+			if (want == 0) {
+				want = 1;
+			}
+		}
+		if ((want != key) &&
+		    (nni_id_set(&ep->pipes, want, q) == NNG_OK)) {
+			nni_id_remove(&ep->pipes, key);
+			q->key = want;
+		}
+	}
+}
+
 static void
 udp_remove_pipe(udp_pipe *p)
 {
 	// ep locked
-	udp_ep  *ep = p->ep;
-	uint64_t id = p->id;
-	if (id == 0) {
+	udp_ep  *ep  = p->ep;
+	uint64_t key = p->key;
+	if (p->id == 0) {
 		return;
 	}
 	p->id = 0;
 	NNI_ASSERT(ep->peer_count != 0);
 	ep->peer_count--;
-	for (;;) {
-		udp_pipe *srch;
-		if ((srch = nni_id_get(&ep->pipes, id)) == NULL) {
-			break;
-		}
-		if (srch == p) {
-			nni_id_remove(&ep->pipes, id);
-			break;
-		}
-		id++;
-		if (id == 0) {
-			id = 1;
-		}
+	// The pipe is removed under the key it was stored with: searching
+	// for it from its hash would miss it once an earlier pipe of the
+	// run is gone, leaving a dangling pointer in the map.
+	if (nni_id_get(&ep->pipes, key) == p) {
+		nni_id_remove(&ep->pipes, key);
+		udp_close_gap(ep, key);
 	}
 	if (p->state < PIPE_CONN_DONE) {
 		nni_list_node_remove(&p->node);
@@ -373,6 +401,7 @@ udp_add_pipe(udp_ep *ep, udp_pipe *p)
 	}
 	nng_err rv;
 	if ((rv = nni_id_set(&ep->pipes, id, p)) == NNG_OK) {
+		p->key = id;
 		ep->peer_count++;
 	}
 	return (rv);
